@@ -179,11 +179,14 @@ def lookup_keys(desc):
         if o["kind"] in ("arr", "rec"):
             ms = o["members"]
             for m in {0: ms[0], 1: ms[len(ms) // 2], 2: ms[-1]}.values():
-                keys += [[o["index"], m["sub"]], [o["name"], m["name"]], [o["name"] + "." + m["name"]], [o["index"], m["name"]]]
+                keys += [[o["index"], m["sub"]], [o["name"], m["name"]], [o["index"], m["name"]]]
+                if "." not in o["name"]:          # 'Parent.Child' splits at the first dot: only for dot-free parents
+                    keys.append([o["name"] + "." + m["name"]])
         elif o["kind"] == "compact":
             keys += [[o["index"], k] for k in range(0, o["n"] + 2)]
             for sb, nm in list((o["names"] or {}).items())[:2]:
-                keys += [[o["name"] + "." + nm], [o["name"], nm]]
+                keys.append([o["name"], nm])
+                if "." not in o["name"]: keys.append([o["name"] + "." + nm])
     return keys
 
 
@@ -324,8 +327,8 @@ def check_dictionary(desc, nid_param, dump, lookups, keys, names_demanded=True, 
     # look-ups reach the same object
     if names_demanded:
         for key, res in zip(keys, lookups):
-            o = next(x for x in desc["objects"] if x["index"] == key[0] or x["name"] == key[0] or
-                     (isinstance(key[0], str) and key[0].startswith(x["name"] + ".")))
+            o = next((x for x in desc["objects"] if x["index"] == key[0] or x["name"] == key[0]), None) or \
+                next(x for x in desc["objects"] if isinstance(key[0], str) and key[0].startswith(x["name"] + "."))
             if o["kind"] == "compact" and len(key) == 2 and isinstance(key[1], int):
                 continue                                    # checked above
             if isinstance(res, Err):
